@@ -202,6 +202,100 @@ func TestVerifC12(t *testing.T) {
 		}
 		vals = append(vals, new(big.Int).SetBytes(b))
 	}
+	// values with a VANISHING or n-like AGGREGATE: the 8/16/32/64-bit words (big- and little-endian reading) sum or XOR
+	// to 0, to all-ones, or to the aggregate of n-1 / n; all words equal. A zero test or a comparison that folds the
+	// words arithmetically (wrap-around sum, XOR of differences accumulated wrongly) errs only on such values
+	// (probability 2^-64 .. 2^-8 per random key). Each is also offered to GenerateKey as the first candidate.
+	var aggVals []*big.Int
+	{
+		nm1b, nbb := ref.B32(zvNm1), ref.B32(zvNI)
+		for _, w := range []int{1, 2, 4, 8} {
+			words := 32 / w
+			agg := func(b []byte, xor, le bool) uint64 {
+				var a uint64
+				for i := 0; i < words; i++ {
+					var v uint64
+					for j := 0; j < w; j++ {
+						if le {
+							v |= uint64(b[i*w+j]) << (8 * uint(j))
+						} else {
+							v = v<<8 | uint64(b[i*w+j])
+						}
+					}
+					if xor {
+						a ^= v
+					} else {
+						a += v
+					}
+				}
+				if w < 8 {
+					a &= 1<<(8*uint(w)) - 1
+				}
+				return a
+			}
+			put := func(b []byte, i int, v uint64, le bool) {
+				for j := 0; j < w; j++ {
+					if le {
+						b[i*w+j] = byte(v >> (8 * uint(j)))
+					} else {
+						b[i*w+j] = byte(v >> (8 * uint(w-1-j)))
+					}
+				}
+			}
+			for rep := 0; rep < hk.N(12, 60); rep++ {
+				for _, xor := range []bool{false, true} {
+					for _, le := range []bool{false, true} {
+						for ti, target := range []uint64{0, ^uint64(0), agg(nm1b, xor, le), agg(nbb, xor, le), 1} {
+							b := rng.Bytes(32)
+							if rep%3 == 1 { // sparse: most words zero
+								for i := range b {
+									b[i] = 0
+								}
+								put(b, rng.Intn(words), rng.Uint64(), le)
+								put(b, rng.Intn(words), rng.Uint64(), le)
+							}
+							if rep%3 == 2 && w >= 4 {
+								b[0], b[1], b[2], b[3] = 0xff, 0xff, 0xff, 0xfe // next to n
+							}
+							slot := (rep + ti) % words
+							if rep%3 == 2 && w >= 4 && slot == 0 {
+								slot = words - 1
+							}
+							put(b, slot, 0, le)
+							cur := agg(b, xor, le)
+							var fix uint64
+							if xor {
+								fix = cur ^ target
+							} else {
+								fix = target - cur
+							}
+							put(b, slot, fix, le)
+							aggVals = append(aggVals, new(big.Int).SetBytes(b))
+						}
+					}
+				}
+			}
+			// all words equal
+			b := make([]byte, 32)
+			for i := 0; i < words; i++ {
+				put(b, i, 0x0123456789abcdef, false)
+			}
+			aggVals = append(aggVals, new(big.Int).SetBytes(b))
+		}
+		vals = append(vals, aggVals...)
+		for i, v := range aggVals {
+			stream := append(ref.B32(v), ref.B32(zvRandScalarIdx(hk.Seed(), 900000+i))...)
+			stream = append(stream, rng.Bytes(32)...)
+			m := ref.SM2KeyGen(stream)
+			var priv []byte
+			var err error
+			pn, pm, _, _ := hk.Try(func() { priv, _, _, err = GenerateKey(zvNewScript(stream)) })
+			if pn || err != nil || !bytes.Equal(priv, ref.B32(m.D)) {
+				r.Violation("generatekey-not-standard:first-candidate-with-vanishing-aggregate", hk.D{"stream": hk.Hex(stream), "priv": zvHexOrNil(priv), "model_d": hk.Hex(ref.B32(m.D)), "err": zvErrStr(err), "panic": pm})
+			}
+		}
+		r.EvalN("genkey:first-candidate-with-vanishing-aggregate", len(aggVals))
+	}
 	for _, v := range vals {
 		b := ref.B32(v)
 		want := ref.ValidPriv(v)
